@@ -1525,6 +1525,62 @@ func ruleResetCover(w *World, r *RuleResult) {
 		}
 		cleared = all
 	}
+	// "re-initialised by Reset" means on every path through Reset, not on some: which fields of the
+	// simulator does each returning path store?
+	everyPath := map[string]bool{}
+	if rps, err := w.Paths(c.a.Reset); err == nil {
+		first := true
+		for _, p := range rps {
+			if p.End != "ret" {
+				continue
+			}
+			here := map[string]bool{}
+			for i := range p.Events {
+				e := &p.Events[i]
+				if e.Kind == "store" && e.LV.Op == "sel" {
+					here[e.LV.S] = true
+				}
+				if e.Kind == "builtin" && e.Method == "clear" && len(e.Args) == 1 && stripConv(e.Args[0]).Op == "sel" {
+					here[stripConv(e.Args[0]).S] = true
+				}
+			}
+			// stores made by the loops the path runs through (one field store per warrior) are seen
+			// on the loops' own back-edge paths: a field stored in a loop body counts for every path
+			for _, q := range rps {
+				if q.End == "backedge" {
+					for i := range q.Events {
+						if e := &q.Events[i]; e.Kind == "store" && e.LV.Op == "sel" {
+							here[e.LV.S] = true
+						}
+					}
+				}
+			}
+			if first {
+				everyPath, first = here, false
+				continue
+			}
+			for f := range everyPath {
+				if !here[f] {
+					delete(everyPath, f)
+				}
+			}
+		}
+	}
+	for f := range resetMods {
+		if resetMods[f] && !everyPath[f] && f != "[]" && !strings.HasPrefix(f, "global:") {
+			// (an embedded struct replaced as a whole is seen as stores to its promoted fields)
+			embedded := false
+			sst := c.a.SimT.Underlying().(*types.Struct)
+			for i := 0; i < sst.NumFields(); i++ {
+				if sst.Field(i).Name() == f && embeddedStruct(sst.Field(i)) {
+					embedded = true
+				}
+			}
+			if (battle[f] || f == c.a.MemField) && !embedded {
+				r.bad(c.a.SimT.Obj().Name()+"."+f+"/every-path", w.Pos(c.a.Reset.Pos()), "Reset re-initialises "+f+" on some paths only: under the other conditions what the last battle left behind survives the reset")
+			}
+		}
+	}
 	r.check(resetMods[c.a.MemField] || cleared, c.a.SimT.Obj().Name()+"."+c.a.MemField, w.Pos(c.a.Reset.Pos()), "core re-created by Reset (MOD.len checks it is make([]Instruction, M))", "Reset does not replace the core although battles change its cells")
 	for _, nt := range []*types.Named{c.a.SimT, c.a.WarT} {
 		tn := nt.Obj().Name()
